@@ -373,6 +373,30 @@ def replay_one(ctx, inp, clause, cause):
     return ok
 
 
+def run_app_headers(ctx):
+    """WebSocketApp with a CALLABLE `header` (documented for values that change over time): the request of every connection
+    of a run — the first and each automatic reconnect — carries what the callable returns for THAT connection."""
+    import appcheck
+    from props import c15
+    scs = []
+    for seq in (("Ee", "Ee"), ("Er", "R", "Ee"), ("Ee", "J", "Ee", "Ee"), ("R", "R", "Ee")):
+        for ssl_ in (False, True):
+            sc = c15.scenario(seq, 1024, "close", ssl=ssl_)
+            sc.update(header_seq=True, kind="app-callable-header", tag="-".join(seq) + "|callable-header")
+            scs.append(sc)
+    for sc, r in zip(scs, appcheck.run_real_many(scs)):
+        hs = [it.partition(":")[2] for it in (r["trace"].split(";") if r["trace"] else []) if it.partition(":")[2].startswith("hs:")]
+        dials = [it for it in (r["trace"].split(";") if r["trace"] else []) if it.partition(":")[2].startswith("dial:")]
+        got = [h.split(":")[2] for h in hs]
+        ctx.case(key=("app-header", sc["tag"], sc["ssl"]), nontrivial=True, cls="app:callable-header:" + str(len(dials)))
+        # one evaluation per connection attempt, in order: attempt k carries the k-th value (refused dials send no request)
+        ok = got == sorted(got, key=int) and len(set(got)) == len(got) and len(got) >= 2
+        if not ok:
+            ctx.violate("request-reflects-options", "callable-header-not-evaluated-per-connection", sc,
+                        "strictly increasing X-Conn-Seq values, one per request", f"requests carried {got}; trace …{r['trace'][-200:]}",
+                        size=len(sc["runs"][0]))
+
+
 def run(ctx):
     ctx.rule = ("scheme x host form x port x path x query x options (host, origin, suppress_origin, subprotocols, "
                 "cookie, header list/dict/None values, connection, jar cookie): all pairs of axis values + random "
@@ -385,6 +409,7 @@ def run(ctx):
     run_e2e(ctx)
     run_freshness(ctx)
     run_redirected_requests(ctx)
+    run_app_headers(ctx)
 
 
 def search(ctx):
